@@ -264,7 +264,11 @@ func (r *run) write(op core.Op) {
 			r.c.Sim.Probe("write-with-one-later-field")
 		}
 	}
-	for i := int64(0); i < op.A; i++ {
+	nrows := op.A
+	if r.c.Plan.C("bigbatch", 0) == 1 {
+		nrows *= 4 // batches of up to 48 rows: the sorts of the broker-side batch code leave their small-input path
+	}
+	for i := int64(0); i < nrows; i++ {
 		si := rng.Intn(len(r.series))
 		// timestamps inside the first 10 minutes of the hour, slot aligned or not; duplicates and out of order happen
 		ts := Jan1 + int64(rng.Intn(60))*10000 + int64(rng.Intn(3))*3333
@@ -1110,7 +1114,9 @@ func (r *run) compare(sqlText string, q queryDef, exp map[string]*expGroup, rs *
 				}
 				// one series per group: first = first written point of the earliest storage slot of the bucket,
 				// last = last written point of the latest one - whatever was flushed when
-				if prop == "C11" && oneSeriesPerGroup(q) {
+				// (C12: the rows travel through the broker-side batch code, which sorts a batch that spans several
+				// families by timestamp - the write order of rows is only defined among rows of one timestamp)
+				if (prop == "C11" || (prop == "C12" && sameSlotAndEpoch(e.values[s]) && sameTimestamp(e.values[s]))) && oneSeriesPerGroup(q) {
 					if strict := strictFirstLast(fieldSpecs[q.field].agg, e.values[s]); gv != strict {
 						if sameSlotAndEpoch(e.values[s]) {
 							// one storage slot, written between the same two flushes: combined by write()/merge() alone
@@ -1399,4 +1405,13 @@ func quantileCands(qv float64, ps []point) []float64 {
 		}
 	}
 	return out
+}
+
+func sameTimestamp(ps []point) bool {
+	for _, p := range ps[1:] {
+		if p.ts != ps[0].ts {
+			return false
+		}
+	}
+	return true
 }
